@@ -11,7 +11,7 @@ CFG = {
     "trusted_base": ["Model/ParserRunFine.lean lists the statements of run/readRune/the timer callback in source order (by reading; shape flags regenerated); "
                      "sync.Mutex gives sequential consistency for the fields it guards; FIFO order of emit; time.AfterFunc/Stop and sync.Pool semantics as stated in notes/C08.md",
                      "pool models (explicit arrays in Model/ParserPools.lean, refining to Own) follow escapeDispatch/csiDispatch/hook/Finish/clear/collect by reading, validated by the retention harness"],
-    "assumptions": ["the consumer keeps receiving (emit blocks otherwise, by design)", "each delivered sequence is passed to Finish at most once",
+    "assumptions": ["the consumer keeps receiving (emit blocks otherwise, by design: consumer_stops_blocks; with a receiving consumer every finite input terminates: finite_input_terminates)", "each delivered sequence is passed to Finish at most once",
                     "40 ms >> 10 ms >> back-to-back reads on the test machine (prompt cases with surplus Escape reports are re-run)"],
     "level_text": "Proved for every schedule of reads, end of input, Close(), timer firings and late timer callbacks: exactly one EOF, last, then the channel is closed, "
                   "nothing emitted afterwards; no panic; end of input / Close+read return stop the loop; no deadlock; number of Escape reports = number of (up-to-date) "
@@ -21,6 +21,9 @@ CFG = {
                   "(forward simulation), with mutual exclusion, EOF once and last, no send on the closed channel, no panic, Escape report only for a lone ESC, mutex never held for ever. "
                   "Pools over explicit backing arrays (aliasing visible, Get returning stale lengths, params and parameter lists included): the cells [0,len) of every delivered, "
                   "unfinished sequence are unchanged since delivery; fails without the Get at dispatch or with a double Finish (witnesses). "
+                  "Bounded channel (capacity regenerated) with an explicit consumer: FIFO, a blocked emit is enabled by one receive, no deadlock, a fair schedule delivers every finite input "
+                  "and ends closed within an explicit step bound; a consumer that stops receiving blocks the parser for ever (witness). "
+                  "Conversely every atomic run is a schedule of single statements (same outputs at quiescent points). "
                   "Real time is abstracted to the order of timer and read events.",
     "level_note": "LTS tied to the code by the regenerated table/timer shape and by scripted-reader correspondence (incl. hook-forced callback delays in a child process). "
                   "Fixed in /repo: F108 (ignoreST after Escape key inside a string), F29 (unguarded timer callback: late Escape, torn sequence, send on closed channel).",
